@@ -19,6 +19,7 @@ INVARIANT ThUniform
 INVARIANT ThZero
 INVARIANT ThInvol
 INVARIANT ThParam
+INVARIANT ThScale
 INVARIANT ThSafe
 INVARIANT Emit
 CHECK_DEADLOCK FALSE
